@@ -699,9 +699,19 @@ func wrapDisabled(d, exp Exp, lookup *TypeLookup) (Exp, error) {
 	case *SplitExp:
 		switch v := d.Value.(type) {
 		case *RefExp:
-			exp = &DisabledExp{
-				Disabled: v,
-				Value:    exp,
+			if _, ok := v.Forks[d.Call]; ok {
+				// The matching fork of a call which is itself mapped.
+				exp = &DisabledExp{
+					Disabled: v,
+					Value:    exp,
+				}
+			} else {
+				// A collection from outside the mapped call: each
+				// fork is controlled by its own element.
+				exp = &DisabledExp{
+					Disabled: d,
+					Value:    exp,
+				}
 			}
 		case *ArrayExp:
 			arr := *v
